@@ -1,4 +1,5 @@
 import D2V.Model.SemGraph
+import D2V.Model.SemProj
 /-!
   C09 — Compiled graphs are well-formed trees with consistent connection endpoints.
 
@@ -434,6 +435,19 @@ theorem order_first_appearance {α} (key : α → Nat) (xs : List α) :
     (sortBy key xs).Pairwise (fun a b => key a ≤ key b) ∧ (sortBy key xs).Perm xs := by
   refine ⟨foldl_insertBy_sorted key xs [] List.Pairwise.nil, ?_⟩
   simpa [sortBy] using foldl_insertBy_perm key xs []
+
+/-- the graph the reference interpreter + projection produce for ANY program of the core fragment (the pipeline that the
+    correspondence stream compares with `d2compiler.Compile`) is a well-formed tree -/
+theorem C09_compiled_wf (prog : List D2V.Sem.Decl) (g : Graph) (c : D2V.Sem.Canon) (h : D2V.Sem.run prog = .graph g c) :
+    TreeWF g := by
+  unfold D2V.Sem.run at h
+  dsimp only at h
+  split at h
+  · cases h
+  · split at h
+    · cases h
+    · cases h
+      exact C09_reachable_wf _
 
 example : TreeWF (build [.connect [] ["a"] ["B", "c"] false true "" [] 0, .ensure ["b", "C"], .attrs ["A"] (some "x") none [] none]) :=
   C09_reachable_wf _
